@@ -366,7 +366,7 @@ func (t *Tree) RemoveLeafCountKey(height int64) {
 	it := t.ndb.db.Iterator(prefix, nil, true)
 	defer it.Close()
 
-	var keys [][]byte
+	var keys, hashes [][]byte
 	for it.Rewind(); it.Valid(); it.Next() {
 		value := make([]byte, len(it.Value()))
 		copy(value, it.Value())
@@ -374,12 +374,20 @@ func (t *Tree) RemoveLeafCountKey(height int64) {
 		err := types.Decode(value, pData)
 		if err == nil {
 			keys = append(keys, pData.Key)
+			hashes = append(hashes, append([]byte{}, it.Key()...))
 		}
 	}
 
 	batch := t.ndb.db.NewBatch(true)
-	for _, k := range keys {
-		_, hash, exits := t.GetHash(k)
+	if t.root.height == 0 {
+		// a tree of one leaf: the leaf is the root, stored under its bare hash, outside the scanned prefix
+		batch.Delete(genLeafCountKey(t.root.key, t.root.hash, height, len(t.root.hash)))
+	}
+	for i, k := range keys {
+		// the index entry of a leaf saved at this height was written with the leaf record's own key;
+		// the hash this tree reaches for k belongs to another height when the same root was saved at several
+		_, _, exits := t.GetHash(k)
+		hash := hashes[i]
 		if exits {
 			batch.Delete(genLeafCountKey(k, hash, height, len(hash)))
 			treelog.Debug("RemoveLeafCountKey:", "height", height, "key:", string(k), "hash:", common.ToHex(hash))
